@@ -318,3 +318,35 @@ func (s *histSys) Check() []bfs.Viol {
 	}
 	return nil
 }
+
+// ---- exported access to the counterparty fixture (used by C18) ----
+
+// CP is the real counterparty chain whose headers are re-signed by the harness's own validator sets.
+type CP struct{ cp *counterparty }
+
+// GetCP returns the shared counterparty and host.
+func GetCP() (CP, *Host) {
+	cp, h := getCP()
+	return CP{cp}, h
+}
+
+// Header returns the signed header of height h trusting the given stored height.
+func (c CP) Header(h int64, trusted uint64) *xibctmtypes.Header { return c.cp.header(h, trusted, false) }
+
+// Cons returns the consensus state a client must hold for height h.
+func (c CP) Cons(h int64) *xibctmtypes.ConsensusState {
+	_, next := c.cp.valsAt(h, false)
+	return &xibctmtypes.ConsensusState{Timestamp: c.cp.timeOf(h), Root: c.cp.c.AppHashAfter[h-1], NextValidatorsHash: next.Hash()}
+}
+
+// TimeOf is the header time of height h.
+func (c CP) TimeOf(h int64) time.Time { return c.cp.timeOf(h) }
+
+// Proof returns the ICS-23 proof of the fixture commitment as seen at header height h, and the committed value.
+func (c CP) Proof(h int64) ([]byte, []byte) {
+	p, _, _ := c.cp.c.QueryProof(host.PacketCommitmentKey("cp-1", "teleport_9000-10", 1), h)
+	return p, c.cp.value
+}
+
+// CommitAt is the block that wrote the fixture commitment.
+func (c CP) CommitAt() int64 { return c.cp.commitAt }
